@@ -285,6 +285,8 @@ pub fn drive_corpus(corpus: &str, seed: u64, thorough: bool, w: &mut NdWriter) -
         continue;
       }
       let cands: Vec<N> = root.dfs().filter(|n| n.kind_id() == site.kind_id() && n.dfs().count() <= 90).take(3).collect();
+      // every fourth case: the pattern is the damaged text too (a pattern with ERROR nodes)
+      let pat = if i % 4 == 3 { damaged.clone() } else { pat };
       for (k, c) in cands.iter().enumerate() {
         if let Some(r) = match_record(&format!("{path}#broken{i}.{k}"), l, &pat, c, json!({"mode": "near"})) {
           w.put(&r);
